@@ -28,7 +28,9 @@ RULE = ("Hypothesis rule-based state machine: set preset / custom table (from a 
         "interpreter returned for s whatever the table; repeated calls agree. quick: one subprocess per pool table; thorough: "
         "one per (table, input). non-trivial = history with >= 1 accepted table change, >= 1 rejected update or caller-side "
         "mutation and >= 1 cache-filling translation before a checked call; distinct = distinct history")
-ASSUMPTIONS = ["fresh-interpreter answers are computed on pools of inputs fixed per run (subprocess cost); in-process the reference R2 "
+ASSUMPTIONS = ["the interpreter's recursion limit and switch interval are inputs of later translations (deep inputs raise RecursionError "
+               "exactly when they exceed the limit): a library call that leaves them changed makes later results depend on the history",
+               "fresh-interpreter answers are computed on pools of inputs fixed per run (subprocess cost); in-process the reference R2 "
                "covers every decoder call",
                "R2's three interpretation choices (see C02)"]
 SELFTESTS = [R.selftest, refsmiles.selftest, GM.selftest]
@@ -42,6 +44,12 @@ SENSITIVE = ["[Xe-2][Branch1][C][F][Branch1][C][F][Branch1][C][F][Branch1][C][F]
              "[C][C][C][Ring1][Ring1]" * 3]
 
 # pre-v2 spellings: decoder(x) must reject them (where reached) whatever compatible=True calls came before
+# a call that fails after many branch symbols (and one that succeeds): what a call may not leave behind includes process-wide
+# interpreter settings that later translations depend on - deeply nested inputs raise RecursionError exactly when they exceed the
+# interpreter's recursion limit (known finding of C08/C09), so that limit is an input only the caller may change
+DEEP_FAIL = "[C][Branch1][C][F]" * 400 + "[Xx]"
+DEEP_OK = "[C][Branch1][C][F]" * 400 + "[O]"
+
 LEGACY = ["[C][C@@Hexpl][Branch1_1][C][F][Cl]", "[Fe++expl][=N+expl][C]", "[C][C][C][Expl=Ring1][C]", "[C][Branch1_2][C][=O][O-expl]",
           "[C][F][Cexpl]", "[NHexpl][C][Expl#Ring1]", "[C][=N+expl][Branch1_3][C][#N][O]"]
 
@@ -58,7 +66,7 @@ def pools(seed, tier):
         t = T.gen_valid_table(ch, allow_preset_name=False)
         t[ch.pick(["Xe-2", "Fe+3", "C", "N+1", "S", "Cl"])] = ch.pick([0, 1, 2, 3, 5, 7])
         tables.append(t)
-    selfies = list(SENSITIVE) + list(LEGACY)
+    selfies = list(SENSITIVE) + list(LEGACY) + [DEEP_FAIL, DEEP_OK]
     while len(selfies) < 60:
         t = tables[ch.below(len(tables))]
         toks = G.gen_live(ch, T.table_dict(t), max_len=25, unknown_percent=ch.pick([0, 0, 3]))
@@ -149,6 +157,20 @@ cleanup = C12.cleanup
 
 
 def apply_step(state, step, info):
+    before = (sys.getrecursionlimit(), sys.getswitchinterval())
+    fail = _apply_step(state, step, info)
+    after = (sys.getrecursionlimit(), sys.getswitchinterval())
+    if fail is None and after != before:
+        try:
+            sys.setrecursionlimit(before[0])
+            sys.setswitchinterval(before[1])
+        except Exception:  # noqa
+            pass
+        return Fail("call_leaves_interpreter_settings_changed", step=jdump(step)[:300], before=list(before), after=list(after))
+    return fail
+
+
+def _apply_step(state, step, info):
     op = step["op"]
     pool = state.pool
     cl = info["classes"]
@@ -354,6 +376,10 @@ class Machine(S.HistoryMachine):
     @rule(i=st.integers(0, 59), compatible=st.booleans(), attribute=st.booleans())
     def decode_legacy(self, i, compatible, attribute):
         self.do(dict(op="decode", i=len(SENSITIVE) + i % len(LEGACY), compatible=compatible, attribute=attribute))
+
+    @rule(which=st.integers(0, 1), attribute=st.booleans())
+    def many_branches(self, which, attribute):
+        self.do(dict(op="decode", i=len(SENSITIVE) + len(LEGACY) + which, attribute=attribute))   # fails / succeeds after 400 branch symbols
 
     @rule(i=st.integers(0, 59), strict=st.booleans(), attribute=st.booleans())
     def encode(self, i, strict, attribute):
